@@ -336,6 +336,21 @@ def _reduction(opname, dtype=None, index=False):
             if ext is not None and ext.known():
                 parts.append(("n", A.dim_term(ext)))
         term = T(opname, *parts)
+        if opname in ("any", "all") and x.term.op in ("lt", "le", "gt", "ge") and at is not None and len(parts) == 2:
+            # any(a < c) along an axis, c a scalar bound  ==  min(a) < c   (all: max)
+            info = getattr(interp, "cmp_info", {}).get(x.term)
+            if info is not None:
+                cn, ca, cb = info
+                sca, scb = shape(ca), shape(cb)
+                arr_first = scb == () and sca is not None and len(sca) >= 1
+                arr_second = sca == () and scb is not None and len(scb) >= 1
+                if arr_first or arr_second:
+                    arr_v, bound = (ca, cb) if arr_first else (cb, ca)
+                    # which extreme decides: for `arr < c` any->min, all->max; for `arr > c` the other way
+                    less = (cn in ("lt", "le")) == arr_first
+                    red = ("amin" if less else "amax") if opname == "any" else ("amax" if less else "amin")
+                    rt = T(red, arr_v.term, parts[1])
+                    term = T(cn, rt, bound.term) if arr_first else T(cn, bound.term, rt)
         dt = dtype
         if opname in ("sum",) and x.extra == "bool":
             term = T("count", x.term) if at is None else term
@@ -585,6 +600,12 @@ def transpose(interp, x, axes=None):
     if axes is None or axes.kind == "none":
         if sh is not None and len(sh) < 2:
             return x
+        if sh is not None and len(sh) == 2 and any(d.is_const() and d.c == 1 for d in sh):
+            # transposing a single row / column only re-labels the axes
+            from .api_numpy import shape_terms as _st
+
+            nsh = tuple(reversed(sh))
+            return V("arr", T("reshape1", x.term, *_st(nsh)), shape=nsh, orig=x.orig, labels=x.labels, loc=x.loc, extra=x.extra if isinstance(x.extra, str) else None)
         return V("arr", T("T", x.term), shape=tuple(reversed(sh)) if sh is not None else None, orig=x.orig, labels=x.labels, loc=x.loc, extra=x.extra if isinstance(x.extra, str) else None)
     if axes.items is not None and all(a.has_const for a in axes.items):
         perm = [a.const for a in axes.items]
@@ -1156,6 +1177,13 @@ def call_external(interp, qual, args, kw, st, node):
             consumed = CONSUMED_KW.get(qual)
             if consumed is not None:
                 extra = {k: v for k, v in kw.items() if k not in consumed and not (v.kind == "none")}
+                if "dtype" in extra and res.kind == "arr":
+                    # dtype=float(64) is the working precision; an integer / boolean dtype is a cast
+                    tag = _dtype_tag(extra["dtype"])
+                    if tag is None or isinstance(tag, str):
+                        del extra["dtype"]
+                        if isinstance(tag, str):
+                            res = res.replace(term=T("astype", res.term, tag), extra=tag)
                 if extra:
                     res = _with_extra_kw(interp, res, extra)
             return res
